@@ -187,6 +187,29 @@ def gen_config(d: Draw, idx):
     return cfg
 
 
+_SHIPPED_MASS = {}
+
+
+def shipped_mass_given(name, world):
+    """Does the shipped configuration prescribe the world's mass?  Read from the configuration FILE (not from the built
+    world's config, which is what a builder bug would have written to)."""
+    if name in _SHIPPED_MASS:
+        return _SHIPPED_MASS[name]
+    ans = None
+    try:
+        import tomllib
+        import TidalPy
+        path = os.path.join(os.path.dirname(TidalPy.__file__), 'WorldPack', name + '.toml')
+        with open(path, 'rb') as f:
+            ans = tomllib.load(f).get('mass') is not None
+    except Exception:
+        ans = None
+    if ans is None:
+        ans = world.config.get('mass') is not None
+    _SHIPPED_MASS[name] = ans
+    return ans
+
+
 def gen_plan(seed, tier):
     d = Draw(seed)
     n_ops = d.between(2, 10)
@@ -203,7 +226,8 @@ def gen_plan(seed, tier):
         elif kind == 'derive':
             parent = d.below(n_worlds)
             nc_kind = d.weighted([('empty', 4), ('same_name', 2), ('new_name', 2), ('flag', 2), ('slices', 1), ('tides', 1),
-                                  ('tides_nested', 1), ('earlier_name', 1), ('layer_geometry', 1), ('move_core', 2)])
+                                  ('tides_nested', 1), ('earlier_name', 1), ('layer_geometry', 1), ('move_core', 2), ('layer_density', 2),
+                                  ('world_mass', 1)])
             nn_kind = d.weighted([('none', 5), ('parent_name', 2), ('parent_config_name', 1), ('fresh', 2)])
             fresh += 1
             ops.append({'op': 'derive', 'parent': parent, 'new_config': nc_kind, 'new_name': nn_kind, 'tag': fresh,
@@ -299,6 +323,8 @@ class WorldChainEngine(EngineBase):
         trace = []
         harness_errors = []
         worlds = []       # (world, snapshot, meta)
+        given = {}        # id(world) -> True when the USER prescribed the world's mass somewhere along its chain (harness model;
+        #                   the world's own config is not trusted for this: a builder that writes a mass into it is the bug)
         stack_info = {}   # id(world) -> description of a world whose upper layers are stacked by thickness
         inputs = []       # (dict object handed to a builder, deep copy taken before the call, description)
         max_lines = 0
@@ -392,8 +418,15 @@ class WorldChainEngine(EngineBase):
             meta = '%s#%d' % (new_world.name, len(worlds))
             # ---- invariants of the new world ----
             judge_geometry = op.get('new_config') != 'layer_geometry'
+            if op['op'] == 'build':
+                mass_given = shipped_mass_given(op['name'], new_world)
+            elif op['op'] == 'derive':
+                mass_given = given.get(id(parent[0]), False) or (isinstance(nc, dict) and nc.get('mass') is not None)
+            elif op['op'] == 'scale':
+                mass_given = given.get(id(parent[0]), False)
+            given[id(new_world)] = bool(mass_given)
             if judge_geometry:
-              self._geometry(new_world, i, label, mass_given if op['op'] == 'build_cfg' else ('mass' in new_world.config and new_world.config.get('mass') is not None), viol, bump)
+                self._geometry(new_world, i, label, bool(mass_given), viol, bump)
             if op['op'] == 'build':
                 ref = self.reference.get(op['name'])
                 if isinstance(ref, dict):
@@ -484,6 +517,20 @@ class WorldChainEngine(EngineBase):
                         return {'layers': {lname: {'radius': layer[0].radius * 0.97}}}
                     return {'layers': {lname: {'thickness': layer[0].thickness * 0.97}}}
             return {}
+        if k == 'layer_density':
+            # a different material in one layer: geometry untouched, the layer's (and, unless the user prescribed a world
+            # mass somewhere along the chain, the world's) mass follows
+            if 'layers' in pw.config and pw.config['layers'] and hasattr(pw, 'layers'):
+                names = list(pw.config['layers'].keys())
+                lname = names[op['value'] % len(names)]
+                lcfg = pw.config['layers'][lname]
+                key = 'density' if lcfg.get('density') is not None else ('density_bulk' if lcfg.get('density_bulk') is not None else None)
+                if key is not None:
+                    return {'layers': {lname: {key: [4500.0, 2000.0, 9000.0, 1200.0][op['tag'] % 4]}}}
+            return {}
+        if k == 'world_mass':
+            # from here on the user prescribes the world's mass
+            return {'mass': float(pw.mass) * [1.3, 0.7, 1.0, 2.0][op['value'] % 4]}
         if k == 'earlier_name':
             # ask for the name an EARLIER world of the pool already has (any other world, not necessarily the parent)
             return {'name': op.get('_earlier_name', pw.name)}
